@@ -1039,20 +1039,44 @@ def _patch(ev, sid, code, more_output):
             ev.ev(x, env)
             yield None, env
             return
-        if k == 'DoStmt':
+        if k in ('DoStmt', 'WhileStmt', 'ForStmt'):
             # inner loop: one round, then its own condition is evaluated and recorded
             # (ev.inner_cond: would a second round follow?); the caller decides whether
-            # a further round is legitimate (progress) or a spin (no progress)
+            # a further round is legitimate (progress) or a spin (no progress).  A loop that
+            # tests first is entered only when its condition can hold; one without a condition
+            # (`for (;;)`, left by break) would always run again.
+            from ..feval import Choice
             c = children(n)
-            for st, e in base_exec(c[0], env, trace):
+            if k == 'DoStmt':
+                lbody, lcond, first = c[0], c[1], False
+            elif k == 'WhileStmt':
+                lcond, lbody, first = c[0], c[-1], True
+            else:
+                inner = n.get('inner', [])
+                inner = inner + [{}] * (5 - len(inner))
+                if inner[0].get('kind') or inner[1].get('kind') or inner[3].get('kind'):
+                    for r in base_exec(n, env, trace):
+                        yield r
+                    return
+                lcond, lbody, first = (inner[2] if inner[2].get('kind') else None), inner[4], True
+
+            def again(e):
+                if lcond is None:
+                    return True
+                v = ev.ev(lcond, e)
+                return True if (v is UNKNOWN or isinstance(v, Choice)) else bool(ev.truth(v))
+            if first and not again(env):
+                yield None, env
+                return
+            for st, e in base_exec(lbody, env, trace):
                 if st is not None and st.kind == 'break':
+                    yield None, e
+                elif st is not None and st.kind == 'continue':
+                    ev.inner_cond.append(again(e))
                     yield None, e
                 else:
                     if st is None:
-                        v = ev.ev(c[1], e)
-                        from ..feval import Choice
-                        ev.inner_cond.append(True if (v is UNKNOWN or isinstance(v, Choice))
-                                             else bool(ev.truth(v)))
+                        ev.inner_cond.append(again(e))
                     yield st, e
             return
         for r in base_exec(n, env, trace):
